@@ -875,7 +875,10 @@ Bound == /\ Len(file) <= MaxFile
          /\ \A e \in mem.out : Cardinality({x \in mem.out : x.s = e.s /\ x.t = e.t /\ x.r = e.r}) <= MaxVer
 
 \* the history is not part of the state identity
-View == <<mem, snap, file, clock, dev, delat, dirty>>
+\* (a delete whose cascade is cut by a crash leads to the same state as the complete delete -- that is the property --
+\*  so the kind of the last delete is part of the state identity; otherwise BFS keeps the VDelete history only)
+CutMark == IF ops # <<>> /\ ops[Len(ops)].op = "VDeleteCut" THEN "cut" ELSE "none"
+View == <<mem, snap, file, clock, dev, delat, dirty, CutMark>>
 
 \* C05 corpus: every (reachable state, rejected call) pair is its own state, emitted when found and not expanded
 \* further (what follows a rejection is covered by the restarts the replayer appends and by the random walks)
